@@ -208,7 +208,7 @@ func C13(r *ev.Report) {
 
 	vals := alpha.Values(ref.N, level)
 	if ev.Thorough() {
-		vals = alpha.Thin(vals, 12000)
+		vals = alpha.Thin(alpha.Values(ref.N, 2), 24000)
 	}
 
 	r.Rule("Equal/LessOrEqual on all ordered pairs of V_n (Montgomery-structured members make limb order and integer order disagree); IsZero/IsOne/Equal(nil)/self-comparison on all of V_n; CSelect for every condition word of the alphabet (0, 1, 2, 3, all 2^i, 2^i-1, ~2^i, masks) x operand pairs x aliasing shapes incl. nil; non-trivial = pair on which raw-limb order and integer order differ, or condition word not in {0,1}")
